@@ -19,7 +19,9 @@ pub const CHECK: Check = Check { id: "C18", level: "exploration", flavours: &["p
 
 const RULE: &str = "cases = (32-byte seed, key kind X25519 | Ed25519, PEM variant: line width 1..76 or unwrapped, LF / CRLF, trailing \
 newline or not, several keys concatenated, up to 3 mutations of the DER / PEM bytes: byte set, bit flip, length-byte edits, \
-tag edits, OID edits, truncation, trailing bytes, insertion, or purely random bytes). Oracle: the generated DER and PEM private \
+tag edits, OID edits, truncation, trailing bytes, insertion, or purely random bytes, or a PKCS#8 / SPKI structure built field by \
+field - version, OID, parameters, key tag, key of 0..140 bytes, inner OCTET STRING header / unused-bits byte present, absent or \
+with any declared length, long-form lengths, trailing bytes - with all enclosing lengths recomputed). Oracle: the generated DER and PEM private \
 key parse to a secret whose public key equals the parsed generated public key; an Ed25519 pair built by the harness (SHA-512, \
 clamp, base-point multiplication with curve25519-dalek) in OpenSSL DER form converts to a matching X25519 pair; PEM == DER; \
 concatenated PEM public keys parse to the same keys in order; canonical layouts always parse; on any input no panic; when a \
@@ -50,6 +52,68 @@ pub struct Case {
     pub many: u8,
     pub muts: Vec<Mut>,
     pub random: Option<Vec<u8>>,
+    /// a PKCS#8 / SPKI shaped structure built field by field with consistent enclosing lengths
+    #[serde(default)]
+    pub tlv: Option<Tlv>,
+}
+
+/// Structure-aware DER: every field may have any content and length; the enclosing lengths are recomputed, so the
+/// input is well-formed DER down to the mutated field (a single-byte length edit cannot produce these).
+#[derive(Clone, Debug, Serialize, Deserialize)]
+pub struct Tlv {
+    pub private: bool,
+    pub version: Vec<u8>,
+    pub oid: Vec<u8>,
+    pub params: Vec<u8>,
+    pub key_tag: u8,
+    /// bytes of the key itself (any length)
+    pub key: Vec<u8>,
+    /// private: declared length of the inner OCTET STRING header (None = no inner header at all);
+    /// public: the unused-bits byte of the BIT STRING (None = absent)
+    pub inner: Option<u8>,
+    /// bit i set = the length of level i is written in long form (0x81 nn)
+    pub long_form: u8,
+    pub trailing_in: Vec<u8>,
+    pub trailing_out: Vec<u8>,
+}
+
+impl Tlv {
+    pub fn encode(&self) -> Vec<u8> {
+        fn enc(tag: u8, body: &[u8], long: bool) -> Vec<u8> {
+            let mut v = vec![tag];
+            if body.len() >= 256 {
+                v.extend_from_slice(&[0x82, (body.len() >> 8) as u8, body.len() as u8]);
+            } else if long || body.len() >= 128 {
+                v.extend_from_slice(&[0x81, body.len() as u8]);
+            } else {
+                v.push(body.len() as u8);
+            }
+            v.extend_from_slice(body);
+            v
+        }
+        let l = |i: u8| self.long_form & (1 << i) != 0;
+        let mut alg = enc(0x06, &self.oid, l(0));
+        alg.extend_from_slice(&self.params);
+        let mut field = Vec::new();
+        if self.private {
+            if let Some(n) = self.inner {
+                field.extend_from_slice(&[0x04, n]);
+            }
+        } else if let Some(n) = self.inner {
+            field.push(n);
+        }
+        field.extend_from_slice(&self.key);
+        let mut body = Vec::new();
+        if self.private {
+            body.extend(enc(0x02, &self.version, l(1)));
+        }
+        body.extend(enc(0x30, &alg, l(2)));
+        body.extend(enc(self.key_tag, &field, l(3)));
+        body.extend_from_slice(&self.trailing_in);
+        let mut out = enc(0x30, &body, l(4));
+        out.extend_from_slice(&self.trailing_out);
+        out
+    }
 }
 
 fn pem(label: &str, der: &[u8], width: usize, crlf: bool, trailing: bool) -> String {
@@ -277,9 +341,20 @@ fn oracle(c: &Case, st: &mut Stats) -> Result<(), String> {
             }
         }
         // ---- mutated / random input: total, and consistent when accepted
-        let inputs: Vec<(Vec<u8>, bool)> = match &c.random {
-            Some(r) => vec![(r.clone(), true), (r.clone(), false)],
-            None => {
+        let inputs: Vec<(Vec<u8>, bool)> = match (&c.tlv, &c.random) {
+            (Some(t), _) => {
+                st.label(match (t.key.len(), t.inner) {
+                    (32, Some(_)) => "structured DER: 32-byte key",
+                    (0..=1, _) => "structured DER: key field of 0..1 bytes",
+                    (_, None) => "structured DER: no inner header",
+                    _ => "structured DER: other key length",
+                });
+                let d = t.encode();
+                // canonical structure must be the canonical bytes (self-check of the encoder)
+                vec![(d.clone(), true), (d, false)]
+            }
+            (None, Some(r)) => vec![(r.clone(), true), (r.clone(), false)],
+            (None, None) => {
                 let mut a = priv_der.clone();
                 let mut b = pub_der.clone();
                 let mut pa = ppem.clone().into_bytes();
@@ -325,13 +400,13 @@ fn oracle(c: &Case, st: &mut Stats) -> Result<(), String> {
         Ok(())
     });
     st.label(if c.ed { "kind=ed25519" } else { "kind=x25519" });
-    if !c.muts.is_empty() || c.random.is_some() || c.width != 64 || c.crlf {
+    if !c.muts.is_empty() || c.random.is_some() || c.tlv.is_some() || c.width != 64 || c.crlf {
         st.nontrivial(util::hash64(format!("{c:?}").as_bytes()));
     }
-    st.sample(|| json!({"kind": if c.ed { "ed25519" } else { "x25519" }, "pem_width": c.width % 77, "crlf": c.crlf, "trailing_newline": c.trailing_newline, "concatenated": c.many % 4, "mutations": c.muts.iter().map(|m| format!("{m:?}")).collect::<Vec<_>>(), "random_len": c.random.as_ref().map(|r| r.len())}));
+    st.sample(|| json!({"kind": if c.ed { "ed25519" } else { "x25519" }, "pem_width": c.width % 77, "crlf": c.crlf, "trailing_newline": c.trailing_newline, "concatenated": c.many % 4, "mutations": c.muts.iter().map(|m| format!("{m:?}")).collect::<Vec<_>>(), "random_len": c.random.as_ref().map(|r| r.len()), "structured_der": c.tlv.as_ref().map(|t| hex::encode(t.encode()))}));
     match r {
         Ok(x) => x,
-        Err(p) => Err(format!("parser {} (mutations {:?})", p.short(), c.muts)),
+        Err(p) => Err(format!("parser {} (mutations {:?}{})", p.short(), c.muts, c.tlv.as_ref().map(|t| format!(", structured DER {}", hex::encode(t.encode()))).unwrap_or_default())),
     }
 }
 
@@ -349,6 +424,39 @@ fn mutation() -> impl Strategy<Value = Mut> {
     ]
 }
 
+pub fn tlv() -> impl Strategy<Value = Tlv> {
+    let small = |max: usize| prop::collection::vec(any::<u8>(), 0..=max);
+    let key = prop_oneof![
+        4 => prop::collection::vec(any::<u8>(), 32),
+        3 => (0usize..4).prop_flat_map(|n| prop::collection::vec(any::<u8>(), n)),
+        3 => (30usize..36).prop_flat_map(|n| prop::collection::vec(any::<u8>(), n)),
+        2 => prop::collection::vec(any::<u8>(), 0..70),
+        1 => (120usize..140).prop_flat_map(|n| prop::collection::vec(any::<u8>(), n)),
+    ];
+    (
+        (any::<bool>(), prop_oneof![4 => Just(vec![0u8]), 1 => small(3)], prop_oneof![3 => Just(vec![0x2bu8, 0x65, 0x6e]), 3 => Just(vec![0x2bu8, 0x65, 0x70]), 1 => small(5)]),
+        (prop_oneof![5 => Just(vec![]), 1 => Just(vec![5u8, 0]), 1 => small(4)], prop_oneof![4 => Just(0x04u8), 4 => Just(0x03u8), 1 => any::<u8>()], key),
+        (prop_oneof![3 => Just(None::<u8>), 3 => Just(Some(0x20u8)), 2 => Just(Some(0u8)), 2 => any::<u8>().prop_map(Some)], prop_oneof![4 => Just(0u8), 1 => any::<u8>()]),
+        (prop_oneof![5 => Just(vec![]), 1 => small(4)], prop_oneof![5 => Just(vec![]), 1 => small(4)]),
+    )
+        .prop_map(|((private, version, oid), (params, key_tag, key), (inner, long_form), (trailing_in, trailing_out))| {
+            // the declared inner length follows the key length half of the time it is 'Some(0x20)'
+            Tlv { private, version, oid, params, key_tag, key, inner, long_form, trailing_in, trailing_out }
+        })
+        .prop_flat_map(|t| {
+            let n = t.key.len() as u8;
+            (Just(t), prop_oneof![1 => Just(false), 1 => Just(true)]).prop_map(move |(mut t, fit)| {
+                if fit && t.inner.is_some() && t.private {
+                    t.inner = Some(n);
+                }
+                if fit {
+                    t.key_tag = if t.private { 0x04 } else { 0x03 };
+                }
+                t
+            })
+        })
+}
+
 fn case() -> impl Strategy<Value = Case> {
     (
         prop::collection::vec(any::<u8>(), 32),
@@ -359,8 +467,9 @@ fn case() -> impl Strategy<Value = Case> {
         prop_oneof![2 => Just(0u8), 1 => 1u8..4],
         prop::collection::vec(mutation(), 0..=3),
         prop::option::weighted(0.1, prop::collection::vec(any::<u8>(), 0..120)),
+        prop::option::weighted(0.3, tlv()),
     )
-        .prop_map(|(seed, ed, width, crlf, trailing_newline, many, muts, random)| Case { seed, ed, width, crlf, trailing_newline, many, muts, random })
+        .prop_map(|(seed, ed, width, crlf, trailing_newline, many, muts, random, tlv)| Case { seed, ed, width, crlf, trailing_newline, many, muts, random, tlv })
 }
 
 fn run(ctx: &Ctx) -> Report {
